@@ -103,6 +103,46 @@ def replay_chunk(args):
     return out
 
 
+def replay_c08_chunk(args):
+    pid, chunk, cmds, pats, seed = args
+    out = []
+    allon = {k: True for k in ["function", "macro", "cpp_class", "cpp_attr", "cpp_constructor", "cpp_member",
+                               "ct_add_test", "add_test", "ct_add_section", "option"]}
+    for n, beh in chunk:
+        prog, inc = beh["prog"], beh["inc"]
+        src, meta = agg.concretize(prog, cmds, seed * 1000003 + n)
+        case = {"prog": [{"k": cmds[p["ci"] - 1]["k"], "d": p["d"], "a": cmds[p["ci"] - 1]["ord"]} for p in prog],
+                "inc": inc, "source": src, "features": features(prog, cmds, inc)}
+        s1, t1, _, _ = agg.run_real(src, agg.make_settings(inc, pats))
+        s0, t0, _, _ = agg.run_real(src, agg.make_settings(allon, pats))
+        if s1 != "ok" or s0 != "ok":
+            out.append((n, case, "page", [s1, t1[:300], s0, t0[:300]], "real pipeline raised on an in-domain program"))
+            continue
+        try:
+            _, v1 = agg.page_views(t1)
+            _, v0 = agg.page_views(t0)
+        except Exception as e:
+            out.append((n, case, "readable page", t1, "projector failed: %r" % (e,)))
+            continue
+        ideal = agg.doc_part(agg.ideal_views(beh["idealOn"], meta), meta, structural=True)
+        imp = agg.doc_part(agg.ideal_views(beh["impl"], meta), meta, structural=True)
+        obs = agg.doc_part(v1, meta, structural=True)
+        case["obs_equals_impl_model"] = (obs == imp)
+        d1, d0 = agg.doc_part(v1, meta), agg.doc_part(v0, meta)
+        shown = [x for x in agg.undocumented_shown(v1, meta) if not inc[x[0]] and x[0] == x[1]]
+        if obs != ideal:
+            out.append((n, case, ideal, obs, "doccomment-stemming entries differ from the ideal under these flags"))
+        elif d1 != d0:
+            out.append((n, case, d0, d1, "rendering of a doccomment-stemming entry differs from its rendering under default settings"))
+        elif shown:
+            out.append((n, case, [], shown, "an undocumented K-command is still shown although include_undocumented_K is off"))
+        elif obs != imp:
+            out.append((n, case, imp, obs, "DRIFT"))
+        else:
+            out.append((n, None, None, None, None))
+    return out
+
+
 def replay(run, pid, res, seed, judge=lambda beh: True, limit=None):
     cmds = res.lines["CMDS"][0]
     pats = res.lines["PATS"][0]
@@ -115,7 +155,7 @@ def replay(run, pid, res, seed, judge=lambda beh: True, limit=None):
     chunks = [(pid, items[i::lib.NCPU * 4], cmds, pats, seed) for i in range(lib.NCPU * 4)]
     chunks = [c for c in chunks if c[1]]
     with ProcessPoolExecutor(max_workers=lib.NCPU, initializer=_init_worker, initargs=(lib.CMINX_SRC,)) as ex:
-        for part in ex.map(replay_chunk, chunks):
+        for part in ex.map(replay_c08_chunk if pid == "C08" else replay_chunk, chunks):
             for n, case, exp, obs, why in part:
                 run.behaviours += 1
                 beh = behs[n]
